@@ -8,7 +8,7 @@ import resolve_gen as rg
 import vlib
 from props import c09
 
-GEN = ["GenResolve"]
+GEN = ["GenResolve", "GenSrcDigest"]
 TRUSTED = [
     "Coq 8.16.1 kernel (coqc); vm_compute only for non-vacuity examples; no axioms",
     "translator tools/gens/gen_resolve.py (std library names and the use-paths inside std/*.sy)",
